@@ -5,6 +5,9 @@
   FULL STATEMENT (not proved as a whole):
     Acyclic G → costs defined → ∃ k, after k calls of `next` the generator has stopped and its output
     is a permutation of the language of G.
+  Proved: NOTHING OUTSIDE (C02_Beap_sound, every history) and EACH PROGRAM AT MOST ONCE (C02_Beap_nodup, every
+  prefix of every run from the fresh generator, positive rule costs).  Not proved: every program of the
+  language is yielded, and termination on finite grammars.
 
   Proved here, for every grammar with distinct dict keys (`RowsNodup`), every cost table, every
   filter, every fuel and every HISTORY of `next` / `merge_program` calls (`Reach`):
@@ -20,7 +23,9 @@
     * C02_Beap_query_sound    — `_query_list_` / `query` keep the invariant and return derivable programs
                                 (any non-terminal, any cost index, any fuel);
     * C02_Beap_heapify_perm, C02_Beap_heappush_mem, C02_Beap_heappop_mem — the heapq port keeps the multiset.
-  NO DUPLICATES rests on the frontier rule of the successor loop ("increment position i until the
+  NO DUPLICATES: C02_Beap_nodup — the sequence produced by `take k` from the fresh generator has no repetition, for
+  every fuel, k, filter (hypotheses: distinct dict keys; `StableAfter`, proved for grammars flagged recursive and
+  for acyclic grammars; every non-terminal derives a program; positive rule costs).  It rests on the frontier rule of the successor loop ("increment position i until the
   first position whose new index is > 1"), proved here as pure combinatorics and linked to the model:
     * C02_Beap_frontier_iff, C02_Beap_frontier_unique_producer, C02_Beap_frontier_producer_exists,
       C02_Beap_frontier_nodup — the combinations pushed from `c` are exactly the `t = c + e_i` with `i` the first
@@ -33,6 +38,7 @@
 -/
 import PS.Proofs.Enum.BeapSoundRun
 import PS.Proofs.Enum.BeapFrontier
+import PS.Proofs.Enum.BeapNodupFinal
 namespace PS.C02Beap
 open PS PS.G PS.Beap
 
@@ -201,5 +207,65 @@ example : ∃ g p, Reach demoE 100 g ∧ ∃ g', Beap.next demoE 100 g = some (g
       obtain ⟨g', q⟩ := r
       simp only [h, Option.map_some, Option.some.injEq] at this
       exact ⟨g', by rw [this]⟩⟩
+
+/-- every non-terminal of the demo grammar derives a program (`a`, `b`, `c`) -/
+theorem demo_productive : Productive demoE := by
+  intro nt _
+  by_cases h1 : nt = ntX
+  · subst h1; exact ⟨.node (sy 2) [], 1, by decide +kernel⟩
+  · by_cases h2 : nt = ntY
+    · subst h2; exact ⟨.node (sy 4) [], 6, by decide +kernel⟩
+    · by_cases h3 : nt = ntZ
+      · subst h3; exact ⟨.node (sy 6) [], 4, by decide +kernel⟩
+      · rename_i h
+        simp [demoE, demoG, AList.lookup, Ne.symm h1, Ne.symm h2, Ne.symm h3] at h
+
+
+/-- `PosW` from a Boolean check of the cost table -/
+theorem posW_of_check {S : Type} [DecidableEq S] (E : Env S)
+    (h : E.W.all (fun r => r.2.all (fun e => decide (0 < e.2))) = true) : PosW E := by
+  intro nt P w hw
+  unfold ruleW at hw
+  split at hw
+  · cases hw
+  · next ws hws =>
+    have h1 := AList.lookup_some_mem hws
+    have h2 := AList.lookup_some_mem hw
+    rw [List.all_eq_true] at h
+    have h3 := h _ h1
+    rw [List.all_eq_true] at h3
+    simpa using h3 _ h2
+
+/-- every rule cost of the demo grammar is positive -/
+theorem demo_posW : PosW demoE := posW_of_check demoE (by decide +kernel)
+
+
+/-! ### NO DUPLICATES -/
+
+/-- **NO DUPLICATES**: the sequence of programs produced by `take k` from the fresh generator has no repetition —
+    for every fuel and every k (every prefix of the run, finite or recursive grammar), every filter.
+    Hypotheses: distinct dict keys, `StableAfter` (proved for grammars flagged recursive and for acyclic grammars,
+    C03_Beap_stable_of_recursive / C03_Beap_stable_of_acyclic), every non-terminal derives a program, every rule cost
+    is positive.  Proof: a ghost table of the popped (rule, combination) pairs; the pairs in a queue and the popped
+    ones are pairwise distinct (frontier rule: unique `Succ`-predecessor), every bank entry is duplicate-free
+    (programs of different pairs differ by their head or by the cost of an argument), and programs yielded at
+    different cost indices have different costs -/
+theorem C02_Beap_nodup {S : Type} [DecidableEq S] (E : Env S) (hnd : RowsNodup E.G) (hst : StableAfter E) (hprod : Productive E)
+    (hpos : PosW E) (fuel k : Nat) (g : Gen S) (ys : List Prog) (fin : Bool)
+    (h : take E fuel k (Gen.new E.G) [] = some (g, ys, fin)) : ys.Nodup :=
+  take_nodup E hnd hst hprod hpos fuel k (Gen.new E.G) [] [] _ (by
+      refine ⟨⟨fun nt c hc => ?_, fun nt el he => ?_, fun nt ci p hp => ?_⟩, fun fr he => by cases he⟩
+      · have : (St.empty E.G).clOf nt = [] := lookup_map_nil E.G.rules nt
+        rw [show (Gen.new E.G).st = St.empty E.G from rfl, this] at hc; cases hc
+      · have : (St.empty E.G).queueOf nt = [] := lookup_map_nil E.G.rules nt
+        rw [show (Gen.new E.G).st = St.empty E.G from rfl, this] at he; cases he
+      · have : (St.empty E.G).bankOf nt = [] := lookup_map_nil E.G.rules nt
+        simp [show (Gen.new E.G).st = St.empty E.G from rfl, St.bankAt, this] at hp)
+    (go_new E) (gn_new E) (fun _ => ⟨rfl, rfl, rfl⟩) All2.nil List.nodup_nil h
+
+/-- non-vacuity of C02_Beap_nodup: all its hypotheses hold on the (recursive) demo grammar -/
+theorem C02_Beap_nodup_demo (fuel k : Nat) (g : Gen Nat) (ys : List Prog) (fin : Bool)
+    (h : take demoE fuel k (Gen.new demoG) [] = some (g, ys, fin)) : ys.Nodup :=
+  C02_Beap_nodup demoE demo_rowsNodup (stableAfter_of_rec demoE rfl) demo_productive demo_posW fuel k g ys fin h
 
 end PS.C02Beap
